@@ -547,7 +547,9 @@ def rule_guards(E, R):
         for a, pol in sem.literals(s.pc)[0]:
             if a.kind == "ok" and pol:
                 root, ch = chain(a.node)
-                if any(x["m"] == "check_param" for x in ch) and all(x["m"] in ("check_param", "map_err") for x in ch):
+                ms_ = [x["m"] for x in ch]
+                # what is applied to check_param's result before `?` only converts the error
+                if "check_param" in ms_ and all(m_ == "map_err" for m_ in ms_[ms_.index("check_param") + 1:]):
                     checked = True
         R.check(checked, rule, fn, "check_param's verdict is propagated (`?`) before the argument is accepted", where=s.node["sp"])
     # (4) lower arity bound before the accepting return
